@@ -20,10 +20,11 @@ echo "demo files: $demos ; filters: $filters" > $log
 cargo test --offline --lib 2>&1 | grep -E "^test |test result" > $log.full
 npass=$(grep -E "test result" $log.full | sed -E 's/.* ([0-9]+) passed.*/\1/' | sort -n | tail -1)
 demo_in_lib=$(grep -E "^test .*(_demo|demo_).* ok$" $log.full | wc -l)
-badfail=$(grep -E "^test .* FAILED$" $log.full | grep -vE "_demo|demo_|c[0-9][0-9]_" | grep -vE "test_io_error_on_staging_file_creation|append_op_fails_when_segment_rollover_cannot_create_file" | wc -l)
+demore=$(for f in $demos; do basename $f .rs; done | paste -sd'|'); [ -z "$demore" ] && demore=__none__
+badfail=$(grep -E "^test .* FAILED$" $log.full | grep -vE "_demo|demo_|c[0-9][0-9]_" | grep -vE "::($demore)::" | grep -vE "test_io_error_on_staging_file_creation|append_op_fails_when_segment_rollover_cannot_create_file" | wc -l)
 npass=$((npass - demo_in_lib))
 echo "existing tests passed=$npass unexpected_failures=$badfail" >> $log
-run_demo() { r=0; for f in $demos; do b=$(basename $f .rs); case $f in tests/*) cargo test --offline --test $b 2>&1 | grep -q "test result: FAILED" && r=1;; src/*) cargo test --offline --lib $b 2>&1 | grep -q "test result: FAILED" && r=1;; esac; done; return $r; }
+run_demo() { r=0; for f in $demos; do b=$(basename $f .rs); case $f in tests/*) cargo test --offline --test $b -- --include-ignored 2>&1 | grep -q "test result: FAILED" && r=1;; src/*) cargo test --offline --lib $b -- --include-ignored 2>&1 | grep -q "test result: FAILED" && r=1;; esac; done; return $r; }
 run_demo; with=$?
 git apply -R $out/patch.diff
 run_demo; without=$?
@@ -34,7 +35,7 @@ if [ "$npass" -ge 70 ] && [ "$badfail" -eq 0 ] && [ "$with" -eq 1 ] && [ "$witho
   python3 - <<PY
 import json
 m=json.load(open("$out/meta.json"))
-m["property"]="$id"
+m["property"]="$id".replace("R2-","")
 m["confirmed"]="tools/confirm_mutant.sh in a fresh worktree: patch applies to clean HEAD; existing tests passed=$npass, unexpected failures=$badfail; demo ($demos) fails with the patch and passes without it"
 json.dump(m,open("/verif/seeded/$id/meta.json","w"),indent=1)
 PY
